@@ -61,6 +61,13 @@ def _run(ev, work, thorough, pid):
             except Exception:
                 got = None
             ev.evaluations += 1
+            if got and not c["sound"]:
+                # contract on the real decision function: it excludes a range that holds a qualifying value
+                verd.add({"what": "filter_val excludes a value range that holds a qualifying value", "ops": [c["op"]],
+                          "bound_state": ("min only" if vmax is None else "max only" if vmin is None else "both")
+                          if (vmin is not None or vmax is not None) else "none",
+                          "explained_by_not_in_bound_rule": bool(c["outb"]) and c["op"] == "not in"},
+                         {"op": c["op"], "constants": c["c"], "vmin": vmin, "vmax": vmax}, cost=len(c["c"]))
             if got is not None and got != bool(c["out"]):
                 bad += 1
                 if len(ev.drift) < 10:
@@ -69,9 +76,12 @@ def _run(ev, work, thorough, pid):
         ev.extra["filter_val_disagreements"] = bad
     # ---- 3. end to end ----
     total_cases = 0
-    for rgs, progs, classes in (("RGsSingle2", "ProgsSingle", F.CLASSES if thorough else F.CLASSES),
-                                ("RGsPair2" if thorough else "RGsPairQ", "ProgsPair", F.CLASSES if thorough else ["int"])):
-        pool, cases, res = F.export(work, rgs, progs, F.VARIANT_CURRENT, progs)
+    for rgs, progs, classes, zero, masked in (("RGsSingle2", "ProgsSingle", ["int"], False, True),
+                                              ("RGsSingle2", "ProgsSingle", ["float", "ts"], False, False),
+                                              ("RGsSingle2", "ProgsSingle", ["str"], True, True),
+                                              ("RGsPair2" if thorough else "RGsPairQ", "ProgsPair", ["int"], False, True)):
+        pool, cases, res = F.export(work, rgs, progs, dict(F.VARIANT_CURRENT, ZeroIsEmpty=zero, MaskedNulls=masked),
+                                    progs + str(zero) + str(masked))
         ev.add_tlc("FiltersExport %s x %s: contract verdicts and mechanism predictions" % (rgs, progs), res,
                    programs=len(cases), pool=len(pool))
         total_cases += len(cases)
